@@ -73,8 +73,10 @@ def gen_op(rng, n, closed):
         return {"name": "set_render_args", "v": rng.choice(["a0", "a1", "a1", "incompatible"])}
     if roll < 0.94:
         return {"name": "set_render_size", "v": [rng.randrange(1, 5), rng.randrange(1, 4)]}
-    if roll < 0.97:
+    if roll < 0.96:
         return {"name": "next_fails", "kind": rng.choice(["exc", "stop"])}
+    if roll < 0.975:
+        return {"name": "next_reclose"}
     if roll < 0.99:
         return {"name": "close"}
     return {"name": "drop"}
@@ -100,15 +102,18 @@ def record(rng: random.Random, pair: bool):
     closed_for = 0
     for _ in range(length):
         op = gen_op(rng, n, closed_for > 0)
-        if op["name"] == "next_fails":
+        if op["name"] in ("next_fails", "next_reclose"):
             # only meaningful where a render will happen; the probe tells us afterwards
             before = len(it.probe.renders)
         real = it.apply(op)
-        if op["name"] == "next_fails" and len(it.probe.renders) == before:
+        if op["name"] in ("next_fails", "next_reclose") and len(it.probe.renders) == before:
             op = {"name": "next"}  # nothing was rendered: the injected failure did not fire
             it.probe.fail_next = None
+            real.pop("inner", None)
             if shadow is not None:
                 shadow.probe.fail_next = None
+        if real.get("res") == "frame" and not isinstance(real.get("dur"), int):
+            return ("decode", init, events, op, dict(real, decode=f"Frame.duration is {real['dur']}, not an int"))
         if "decode" in real:
             return ("decode", init, events, op, real)
         r2 = real
@@ -141,6 +146,7 @@ def _norm(r: dict) -> dict:
     if r["res"] == "frame":
         for f in ("num", "dur", "size", "margins", "psize", "args", "seek", "rendered"):
             out[f] = r[f]
+        out["inner"] = r.get("inner", "")
     return out
 
 
